@@ -1,6 +1,7 @@
 import Sx.Lemmas.RxReady
 import Sx.Lemmas.RxCovers
 import Sx.Sys
+import Sx.Props.C02
 /-
   C03 — FSK/OOK reception delivers each packet exactly once, byte-exact.
 
@@ -343,6 +344,37 @@ theorem C03_step_on_chip (hdr P : List UInt8) (c : SysCfg) (hc : c.cached = fals
     show RxChip (w.sched.foldl _ w.chip) g'
     rw [hw.nosched]
     exact hw.chip
+
+/-- **C03 on the chip model, cached build.** The same as `C03_step_on_chip` for the build with
+    the register cache, from any state whose cache is coherent (C01: every state reachable by an
+    admissible history): the cached handler invocation is observably the uncached one (C02). -/
+theorem C03_step_on_chip_cached (hdr P : List UInt8) (c : SysCfg) (hc : c.cached = true) (hval : c.Valid)
+    (hfuel : 64 ≤ c.fuel) (s : Sys) (i : Inv s.world) (h : Handle) (g : RxG)
+    (hh : s.handle = some h) (hv : RxInv hdr P h g)
+    (hmod : h.activeModem = Gen.SX127x_MODULATION_FSK ∨ h.activeModem = Gen.SX127x_MODULATION_OOK)
+    (hchip : RxChip s.world.chip g) :
+    match s.step c (.api .irq [] []) with
+    | (s', .ret _ _ _) => ∃ h' g', s'.handle = some h' ∧ RxPost hdr P g g' h' ∧
+        (g'.ended = false → RxChip s'.world.chip g') ∧ Inv s'.world
+    | (_, .ub _) => True
+    | (_, _) => False := by
+  have hsim := step_sim c hc hval s s ⟨rfl, rfl, i⟩ (.api .irq [] []) ⟨rfl, rfl⟩ trivial (fun e he => by cases he)
+  have hun := C03_step_on_chip hdr P c.uncached rfl hfuel s h g hh hv hmod hchip
+  generalize hsc : s.step c (.api .irq [] []) = rc at hsim
+  generalize hsu : s.step c.uncached (.api .irq [] []) = ru at hsim hun
+  obtain ⟨sc', oc⟩ := rc
+  obtain ⟨su', ou⟩ := ru
+  cases oc with
+  | ub u => trivial
+  | skipped => cases ou <;> simp [ObsRel] at hsim <;> exact hun
+  | env => cases ou <;> simp [ObsRel] at hsim <;> exact hun
+  | ret r cbs bus =>
+    cases ou with
+    | ret r' cbs' bus' =>
+      obtain ⟨h', g', e1, e2, e3⟩ := hun
+      have sr := hsim.2 (fun u hu => by cases hu)
+      exact ⟨h', g', sr.handle.trans e1, e2, fun hne => by rw [sr.chip]; exact e3 hne, sr.inv⟩
+    | _ => exact absurd hsim.1 (by simp [ObsRel])
 
 /-- the start of a packet: the handle in its reset state (as `create`, a delivery or a drop
     leave it), the FIFO empty, the whole frame still on the air -/
